@@ -136,7 +136,9 @@ def sym_self(ev, repo, clsname, **fields):
     return Obj(cls, dict(fields), origin=None)
 
 
-def delegation_rules(repo, rep):
+def delegation_rules(repo, rep, only=None):
+    """only: restrict to the named methods (used by C01, C02, C03, whose observe_at lists name these wrappers)"""
+    want_ = (lambda q: only is None or q in only)
     orc_opq = set(CONV) | angle_opaque(repo)
     base = 'R-WIRE::geodepy/coord.py::'
     x, y, z, nv = Rat.sym('x'), Rat.sym('y'), Rat.sym('z'), Rat.sym('nval')
@@ -146,7 +148,7 @@ def delegation_rules(repo, rep):
     # ---- CoordCart.geo
     f = repo.func('geodepy.coord', 'CoordCart.geo')
     rep.analysed(f)
-    for nname, nref in nots:
+    for nname, nref in (nots if want_('CoordCart.geo') else []):
         ev = mk_eval(repo)
         E = sym_ellipsoid(ev, repo, 'ellipsoid')
         me = sym_self(ev, repo, 'CoordCart', xaxis=x, yaxis=y, zaxis=z, nval=nv)
@@ -161,33 +163,35 @@ def delegation_rules(repo, rep):
     # ---- CoordGeo.cart
     f = repo.func('geodepy.coord', 'CoordGeo.cart')
     rep.analysed(f)
-    ev = mk_eval(repo)
-    E = sym_ellipsoid(ev, repo, 'ellipsoid')
-    me = sym_self(ev, repo, 'CoordGeo', lat=lat, lon=lon, ell_ht=eh, orth_ht=oh)
-    got = ev.call_function(f, {'self': me, f.params[1].name: E})
-    orc = Oracle(ORACLE, base=repo, opaque=orc_opq)
-    Eo = sym_ellipsoid(orc.ev, orc.repo, 'ellipsoid')
-    want = orc.call('geo_cart', lat=lat, lon=lon, ell_ht=eh, orth_ht=oh, ellipsoid=Eo)
-    compare_objs(rep, 'R-WIRE', base + 'CoordGeo.cart', where(f, f.node), got, want,
-                 'CoordGeo.cart = CoordCart(llh2xyz(own lat, lon, ell_ht or 0, ellipsoid), N = ell_ht - orth_ht when both heights are present - zero is a height)')
+    if want_('CoordGeo.cart'):
+        ev = mk_eval(repo)
+        E = sym_ellipsoid(ev, repo, 'ellipsoid')
+        me = sym_self(ev, repo, 'CoordGeo', lat=lat, lon=lon, ell_ht=eh, orth_ht=oh)
+        got = ev.call_function(f, {'self': me, f.params[1].name: E})
+        orc = Oracle(ORACLE, base=repo, opaque=orc_opq)
+        Eo = sym_ellipsoid(orc.ev, orc.repo, 'ellipsoid')
+        want = orc.call('geo_cart', lat=lat, lon=lon, ell_ht=eh, orth_ht=oh, ellipsoid=Eo)
+        compare_objs(rep, 'R-WIRE', base + 'CoordGeo.cart', where(f, f.node), got, want,
+                     'CoordGeo.cart = CoordCart(llh2xyz(own lat, lon, ell_ht or 0, ellipsoid), N = ell_ht - orth_ht when both heights are present - zero is a height)')
     # ---- CoordGeo.tm
     f = repo.func('geodepy.coord', 'CoordGeo.tm')
     rep.analysed(f)
-    ev = mk_eval(repo)
-    E = sym_ellipsoid(ev, repo, 'ellipsoid')
-    P = sym_projection(ev, repo, 'projection')
-    me = sym_self(ev, repo, 'CoordGeo', lat=lat, lon=lon, ell_ht=eh, orth_ht=oh)
-    got = ev.call_function(f, {'self': me, f.params[1].name: E, f.params[2].name: P})
-    orc = Oracle(ORACLE, base=repo, opaque=orc_opq)
-    Eo = sym_ellipsoid(orc.ev, orc.repo, 'ellipsoid')
-    Po = sym_projection(orc.ev, orc.repo, 'projection')
-    want = orc.call('geo_tm', lat=lat, lon=lon, ell_ht=eh, orth_ht=oh, ellipsoid=Eo, projection=Po)
-    compare_objs(rep, 'R-WIRE', base + 'CoordGeo.tm', where(f, f.node), got, want,
-                 'CoordGeo.tm = CoordTM(geo2grid(own lat, lon, automatic zone, ellipsoid, projection), heights unchanged, same projection)')
+    if want_('CoordGeo.tm'):
+        ev = mk_eval(repo)
+        E = sym_ellipsoid(ev, repo, 'ellipsoid')
+        P = sym_projection(ev, repo, 'projection')
+        me = sym_self(ev, repo, 'CoordGeo', lat=lat, lon=lon, ell_ht=eh, orth_ht=oh)
+        got = ev.call_function(f, {'self': me, f.params[1].name: E, f.params[2].name: P})
+        orc = Oracle(ORACLE, base=repo, opaque=orc_opq)
+        Eo = sym_ellipsoid(orc.ev, orc.repo, 'ellipsoid')
+        Po = sym_projection(orc.ev, orc.repo, 'projection')
+        want = orc.call('geo_tm', lat=lat, lon=lon, ell_ht=eh, orth_ht=oh, ellipsoid=Eo, projection=Po)
+        compare_objs(rep, 'R-WIRE', base + 'CoordGeo.tm', where(f, f.node), got, want,
+                     'CoordGeo.tm = CoordTM(geo2grid(own lat, lon, automatic zone, ellipsoid, projection), heights unchanged, same projection)')
     # ---- CoordTM.geo
     f = repo.func('geodepy.coord', 'CoordTM.geo')
     rep.analysed(f)
-    for nname, nref in nots:
+    for nname, nref in (nots if want_('CoordTM.geo') else []):
         ev = mk_eval(repo)
         E = sym_ellipsoid(ev, repo, 'ellipsoid')
         P = sym_projection(ev, repo, 'self.projection')
@@ -202,7 +206,7 @@ def delegation_rules(repo, rep):
         compare_objs(rep, 'R-WIRE', base + 'CoordTM.geo::%s' % nname, where(f, f.node), got, want,
                      'CoordTM.geo(notation=%s) = CoordGeo(grid2geo(own zone, east, north, own hemisphere, ellipsoid, own projection) in that notation, heights unchanged)' % nname)
     # ---- the two composite methods
-    for q, parts in (('CoordCart.tm', ('geo', 'tm')), ('CoordTM.cart', ('geo', 'cart'))):
+    for q, parts in ((('CoordCart.tm', ('geo', 'tm')), ('CoordTM.cart', ('geo', 'cart'))) if only is None else ()):
         f = repo.func('geodepy.coord', q)
         rep.analysed(f)
         calls = [stmt_text(c.func) for c in ast.walk(f.node) if isinstance(c, ast.Call)]
@@ -216,7 +220,8 @@ def delegation_rules(repo, rep):
             rep.holds('R-WIRE', key, where(f, f.node), '%s = self.%s(...).%s(...) (threading checked by R-THREAD)' % (q, parts[0], parts[1]))
         else:
             rep.undecided('R-WIRE', key, where(f, f.node), '%s is not the composition self.%s().%s()' % (q, parts[0], parts[1]))
-    rep.floor('R-WIRE', 16, 'conversion methods x notations')
+    if only is None:
+        rep.floor('R-WIRE', 16, 'conversion methods x notations')
 
 
 def dispatch_rules(repo, rep):
@@ -368,6 +373,10 @@ def exhaustive_type_chain(repo):
 
 def run(repo, rep):
     alg.reset()
+    # the closed chains of C15 rest on the two geodetic/Cartesian conversions: their formula rules are part of this check
+    from . import c03
+    c03.forward_rules(repo, rep)
+    c03.inverse_rules(repo, rep)
     rep.trust('opaque call atoms carry every formal parameter of the callee (defaults explicit); constructors of the coordinate classes are evaluated')
     rep.assume('latitude/longitude held as plain numbers are floats (type(x) == float folds to true for symbolic numbers in this module)')
     # threading
